@@ -1,9 +1,9 @@
 (* C19: statements of Properties/C19.v for rename_gate / replace_inputs / remove_gate assembled
-   from SemRename / SemReplaceInputs / SemRemove, and the non-vacuity examples. *)
+   from SemRenameGate / SemReplaceInputs / SemRemove, and the non-vacuity examples. *)
 Require Import Cirbo.Model.Base Cirbo.Model.Gate Cirbo.Model.Den Cirbo.Model.Circuit Cirbo.Model.Connect
         Cirbo.Model.Eval Cirbo.Model.Sem Cirbo.Model.History Cirbo.Model.WF.
 Require Import Cirbo.Proofs.DictFacts Cirbo.Proofs.WFBase Cirbo.Proofs.WFEmplace Cirbo.Proofs.WFRename
-        Cirbo.Proofs.WFRename2 Cirbo.Proofs.WFReplaceInputs Cirbo.Proofs.WFStep Cirbo.Proofs.SemExt Cirbo.Proofs.SemRename
+        Cirbo.Proofs.WFRename2 Cirbo.Proofs.WFReplaceInputs Cirbo.Proofs.WFStep Cirbo.Proofs.SemExt Cirbo.Proofs.SemRenameGate
         Cirbo.Proofs.SemReplaceInputs Cirbo.Proofs.SemRemove Cirbo.Proofs.SemFacts Cirbo.Proofs.SemReplaceSub Cirbo.Proofs.SemReplaceSub2 Cirbo.Proofs.SemReplaceSub3 Cirbo.Proofs.WFReplaceSub.
 
 Theorem rename_gate_state c old new c' : WF c -> rename_gate c old new = Ok c' ->
